@@ -569,6 +569,8 @@ func roSpaces(mode int, tier string) []mc.Space {
 	}
 	sp = append(sp, mc.Space{Name: "degenerate-single-field-records", H: roSeedsPlain(mode, degenerateRecords()), NoLevels: true, Isolate: true,
 		Rule: "for every supported Exif field alone in a record, in both byte orders: value shapes its parser does not expect (count 0; strings/dates of 0, 1 and 3 characters with and without NUL; a rational as two SHORTs / one LONG / no value; BYTE x4) x every accepting entry point"})
+	sp = append(sp, mc.Space{Name: "ftyp-brand-combinations", H: roSeedsPlain(mode, brandSeeds()), NoLevels: true, Isolate: true,
+		Rule: "file starts made of one ftyp box with every combination of major brand and two compatible brands over the 12 brands the library names (10) or not (2), declared with 24 and 28 bytes, ending with the sniffer's 24-byte window or followed by the start of a meta box (6912 streams) x every accepting entry point and the three sniffing entry points"})
 	sp = append(sp, mc.Space{Name: "shared-value-bytes", H: roSeedsPlain(mode, amplificationSeeds()), NoLevels: true, Isolate: true,
 		Rule: "TIFF blocks whose 40-83 string fields name overlapping or identical value bytes (steps 0, 1, 64, 100; counts 1000-4096), alone and repeated as 24 and 64 Exif segments of one JPEG in alternating byte orders x every accepting entry point: the work and memory of a decode must follow the file's length, not the number of names for the same bytes"})
 	isoSeeds := []seed{}
